@@ -1,7 +1,7 @@
 (* C02 - every runner request is answered exactly once; queue full => busy error at once; the scheduler drains.
    Theorems only. *)
 From Coq Require Import List ZArith NArith Bool Lia Arith.
-From V Require Import Sched.Lts Sched.Reach Sched.InvOwn Sched.InvLock Sched.Refute Sched.Dead Sched.InvRef Sched.Drain Sched.Quiesce Sched.InvLoad Sched.Term Sched.Examples.
+From V Require Import Sched.Lts Sched.Reach Sched.InvOwn Sched.InvLock Sched.Refute Sched.Dead Sched.InvRef Sched.Drain Sched.Quiesce Sched.InvLoad Sched.InvQueue Sched.Term Sched.Examples.
 Import ListNotations.
 
 (* A submit that finds the pending queue full is answered in the same step with the busy error, the request is
@@ -113,6 +113,21 @@ Proof.
   eapply no_grant_loading; eauto. eapply run_Reach; eauto.
 Qed.
 Print Assumptions C02_reply_success_loaded.
+
+(* Admission is one atomic step (C02_queue_full_not_blocking / C02_queue_not_full_enqueues: every Submit step is
+   defined - the call returns - and either queues the request or answers busy), hence with any number of concurrent
+   submitters the pending queue never holds more than OLLAMA_MAX_QUEUE requests: accepted <= capacity.  (Any
+   configuration.)  The implementation's GetRunner is held to this by the `admission` stage of the harness: each
+   call runs in a goroutine of its own, interleaved at the synchronisation operations inside GetRunner. *)
+Theorem C02_admission_bound :
+  forall c m ls s ev, run c (init_m m) ls = Some (s, ev) -> length (pendq s) <= c_maxq c.
+Proof. intros c m ls s ev H. eapply queue_bound. eapply run_Reach; eauto. Qed.
+Print Assumptions C02_admission_bound.
+
+Theorem C02_submit_always_returns :
+  forall c s sp, exists s' e, step c s (LSubmit sp) = Some (s', e).
+Proof. intros c s sp. simpl. destruct (Nat.ltb (length (pendq s)) (c_maxq c)); eauto. Qed.
+Print Assumptions C02_submit_always_returns.
 
 (* ------------------------------------------------------------------ liveness: the scheduler reaches quiescence *)
 
